@@ -116,6 +116,12 @@ class Multiplication:
           continue
         processed_circulars.add(l)
       lc = l.clone()
+      # the identifier of a line cannot be used also for its copy
+      if not gfapy.is_placeholder(lc.name):
+        if lc.record_type == "E":
+          lc.eid = gfapy.Placeholder()
+        else:
+          lc.delete("ID")
       if lc.from_segment == segment.name:
         lc.from_segment = clone_name
       if lc.to_segment == segment.name:
